@@ -117,6 +117,7 @@ type env struct {
 	from      int    // handle its chain was started from (0 = Open)
 	fromChain bool   // that handle's Statement object was allocated by a chain call
 	rechecked int64
+	lastTx    pair // what the last finisher returned on the two twins (nil after a panic)
 }
 
 type keptStmt struct {
@@ -146,9 +147,33 @@ func (e *env) recheck(now int, nowLabel string) string {
 
 func fixedNow() time.Time { return testdb.FixedNow }
 
-func newEnv() *env {
+// cfgs: the gorm.Config / dialector variants a history can be run under (the same
+// one in the history and in every isolated replay).
+type cfgDef struct {
+	text        string
+	set         func(c *gorm.Config)
+	numbered    bool // dry-run twin uses $n placeholders
+	noReturning bool // SQLite twin registers its callbacks without RETURNING
+}
+
+var cfgs = []cfgDef{
+	{text: "default", set: func(c *gorm.Config) {}},
+	{text: "SkipDefaultTransaction", set: func(c *gorm.Config) { c.SkipDefaultTransaction = true }},
+	{text: "PrepareStmt", set: func(c *gorm.Config) { c.PrepareStmt = true }},
+	{text: "QueryFields", set: func(c *gorm.Config) { c.QueryFields = true }},
+	{text: "PropagateUnscoped", set: func(c *gorm.Config) { c.PropagateUnscoped = true }},
+	{text: "CreateBatchSize:1", set: func(c *gorm.Config) { c.CreateBatchSize = 1 }},
+	{text: "AllowGlobalUpdate", set: func(c *gorm.Config) { c.AllowGlobalUpdate = true }},
+	{text: "TranslateError+FullSaveAssociations", set: func(c *gorm.Config) { c.TranslateError = true; c.FullSaveAssociations = true }},
+	{text: "$n placeholders / no RETURNING", set: func(c *gorm.Config) {}, numbered: true, noReturning: true},
+}
+
+func newEnv(cfg int) *env {
 	e := &env{}
-	e.lite = testdb.Open(testdb.Options{Config: gorm.Config{NowFunc: fixedNow}})
+	cd := cfgs[cfg]
+	lc := gorm.Config{NowFunc: fixedNow}
+	cd.set(&lc)
+	e.lite = testdb.Open(testdb.Options{Config: lc, NoReturning: cd.noReturning})
 	e.lite.Rec.Pause()
 	for _, s := range ddl {
 		if _, err := e.lite.SQL.Exec(s); err != nil {
@@ -157,7 +182,9 @@ func newEnv() *env {
 	}
 	e.seed()
 	e.lite.Rec.Resume()
-	e.root = pair{d: newDry(), l: e.lite.DB}
+	dc := gorm.Config{NowFunc: fixedNow, ConnPool: &dryPool{}}
+	cd.set(&dc)
+	e.root = pair{d: testdb.Dry(cd.numbered, dc), l: e.lite.DB}
 	return e
 }
 
@@ -245,22 +272,67 @@ var argCalls = []callDef{
 	{text: `Table("(?) AS users",h%d)`, fam: "arg-table-handle", merge: "", argf: func(db, arg *gorm.DB) *gorm.DB {
 		return db.Table("(?) AS users", arg)
 	}},
+	{text: `Having(h%d)`, fam: "arg-group", merge: "GROUP", argf: func(db, arg *gorm.DB) *gorm.DB { return db.Having(arg) }},
+	{text: `Having("max(age) >= (?)",h%d.Model(&User{}).Select("min(age)"))`, fam: "arg-subquery", merge: "GROUP", argf: func(db, arg *gorm.DB) *gorm.DB {
+		return db.Having("max(age) >= (?)", arg.Model(&User{}).Select("min(age)"))
+	}},
+	{text: `Select("name, (?) as age",h%d.Model(&User{}).Select("count(*)"))`, fam: "arg-subquery", merge: "", argf: func(db, arg *gorm.DB) *gorm.DB {
+		return db.Select("name, (?) as age", arg.Model(&User{}).Select("count(*)"))
+	}},
+	{text: `Joins("JOIN (?) AS jq ON …",h%d.Table("companies"))`, fam: "arg-subquery", merge: "JOINS", argf: func(db, arg *gorm.DB) *gorm.DB {
+		return db.Joins("JOIN (?) AS jq ON jq.id = users.company_id", arg.Table("companies"))
+	}},
+	{text: `Scopes(func{Where("id IN (?)",h%d.Table("users").Select("id"))})`, fam: "arg-scope", merge: "SCOPES", argf: func(db, arg *gorm.DB) *gorm.DB {
+		return db.Scopes(func(tx *gorm.DB) *gorm.DB { return tx.Where("id IN (?)", arg.Table("users").Select("id")) })
+	}},
+	{text: `Preload("Company",h%d)`, fam: "arg-preload", merge: "", argf: func(db, arg *gorm.DB) *gorm.DB { return db.Preload("Company", arg) }},
+	{text: `Clauses(Where{Expr("id IN (?)",h%d)})`, fam: "arg-subquery-handle", merge: "WHERE", argf: func(db, arg *gorm.DB) *gorm.DB {
+		return db.Clauses(clause.Where{Exprs: xs[clause.Expression](clause.Expr{SQL: "id IN (?)", Vars: xs[interface{}](arg)})})
+	}},
 	{text: `Table("(?) AS users",h%d.Model(&User{}))`, fam: "arg-table", merge: "", argf: func(db, arg *gorm.DB) *gorm.DB {
 		return db.Table("(?) AS users", arg.Model(&User{}))
 	}},
 }
 
+// finCallBase + finisher index: a finisher in the middle of a chain - the chain is
+// continued linearly on the value the finisher returned (documented use:
+// db.Limit(3).Find(&a).Limit(-1).Find(&b); tx.Count(&n) followed by tx.Find(&rows)).
+const finCallBase = 5000
+
+// midKinds: the finisher kinds a chain may be continued after (they return the
+// executed *gorm.DB itself and do not write).
+var midKinds = map[string]bool{"find": true, "first": true, "count": true, "pluck": true, "scan": true}
+
 func def(code int) callDef {
+	if code >= finCallBase {
+		fd := fins[code-finCallBase]
+		return callDef{text: fd.text, fam: "mid-finisher", f: func(db *gorm.DB) *gorm.DB {
+			tx, _, pan := safely(fd, db, false, nil)
+			if pan != "" || tx == nil {
+				return db // a panic inside gorm: the chain goes on from the value it had
+			}
+			return tx
+		}}
+	}
 	if code < argBase {
 		return calls[code]
 	}
 	d := argCalls[(code-argBase)/10]
 	d.arg = (code - argBase) % 10
-	d.text = fmt.Sprintf(d.text, d.arg)
+	d.text = strings.Replace(d.text, "h%d", fmt.Sprintf("h%d", d.arg), 1)
 	return d
 }
 
 func isOr(code int) bool { f := def(code).fam; return f == "or" || f == "arg-group-or" }
+
+// distinctModifier is a clause that implements gorm.StatementModifier (the arm of
+// Clauses / AddClause that hands the statement to user code).
+type distinctModifier struct{}
+
+func (distinctModifier) Name() string                      { return "HARNESS_MODIFIER" }
+func (distinctModifier) Build(clause.Builder)              {}
+func (distinctModifier) MergeClause(*clause.Clause)        {}
+func (distinctModifier) ModifyStatement(s *gorm.Statement) { s.Distinct = true }
 
 func col(n string) clause.Column { return clause.Column{Name: n} }
 
@@ -417,6 +489,85 @@ var calls = []callDef{
 	{text: `Preload("Company")`, fam: "preload", merge: "", f: func(db *gorm.DB) *gorm.DB { return db.Preload("Company") }},
 	{text: `Preload("Company","name = ?","c1")`, fam: "preload", merge: "", f: func(db *gorm.DB) *gorm.DB { return db.Preload("Company", "name = ?", "c1") }},
 	{text: `Preload(Associations)`, fam: "preload", merge: "", f: func(db *gorm.DB) *gorm.DB { return db.Preload(clause.Associations) }},
+	// value forms of conditions
+	{text: `Where([1 2 6])`, fam: "where", merge: "WHERE", f: func(db *gorm.DB) *gorm.DB { return db.Where(xs(1, 2, 6)) }},
+	{text: `Where(User{Name:u1,Age:20})`, fam: "where", merge: "WHERE", f: func(db *gorm.DB) *gorm.DB { return db.Where(User{Name: "u1", Age: 20}) }},
+	{text: `Where(&User{Name:u1},"name","Age")`, fam: "where", merge: "WHERE", f: func(db *gorm.DB) *gorm.DB { return db.Where(&User{Name: "u1"}, "name", "Age") }},
+	{text: `Where(map 5 keys)`, fam: "where", merge: "WHERE", f: func(db *gorm.DB) *gorm.DB {
+		// more conditions than BuildCondition preallocates room for (4)
+		return db.Where(map[string]interface{}{"active": true, "age": 20, "company_id": 1, "id": 1, "name": "u1"})
+	}},
+	{text: `Where("id IN ?",10 values)`, fam: "where", merge: "WHERE", f: func(db *gorm.DB) *gorm.DB {
+		// more bound values than a new statement preallocates room for (8)
+		return db.Where("id IN ?", xs(1, 2, 3, 4, 5, 6, 7, 8, 9, 10))
+	}},
+	{text: `Not([3 4])`, fam: "not", merge: "WHERE", f: func(db *gorm.DB) *gorm.DB { return db.Not(xs(3, 4)) }},
+	{text: `Or(&User{Name:u3})`, fam: "or", merge: "WHERE", f: func(db *gorm.DB) *gorm.DB { return db.Or(&User{Name: "u3"}) }},
+	{text: `Having(Expr("count(*) < ?",9))`, fam: "having", merge: "GROUP", f: func(db *gorm.DB) *gorm.DB { return db.Having(gorm.Expr("count(*) < ?", 9)) }},
+	{text: `Order("")`, fam: "order", merge: "ORDER", f: func(db *gorm.DB) *gorm.DB { return db.Order("") }},
+	{text: `Select("name","age > ?",?)`, fam: "select", merge: "", f: func(db *gorm.DB) *gorm.DB { return db.Select("name, age > @a as active", sql.Named("a", 25)) }},
+	// Attrs / Assign (read by FirstOrInit / FirstOrCreate)
+	{text: `Attrs(User{Age:77})`, fam: "attrs", merge: "", f: func(db *gorm.DB) *gorm.DB { return db.Attrs(User{Age: 77}) }},
+	{text: `Attrs("age",78)`, fam: "attrs", merge: "", f: func(db *gorm.DB) *gorm.DB { return db.Attrs("age", 78) }},
+	{text: `Assign(map{active:true})`, fam: "assign", merge: "", f: func(db *gorm.DB) *gorm.DB { return db.Assign(map[string]interface{}{"active": true}) }},
+	{text: `Assign(User{Age:79})`, fam: "assign", merge: "", f: func(db *gorm.DB) *gorm.DB { return db.Assign(User{Age: 79}) }},
+	// MapColumns / Set / InstanceSet
+	{text: `MapColumns(map{name:nick})`, fam: "mapcolumns", merge: "", f: func(db *gorm.DB) *gorm.DB { return db.MapColumns(map[string]string{"name": "nick"}) }},
+	{text: `Set("gorm:update_track_time",true)`, fam: "set", merge: "", f: func(db *gorm.DB) *gorm.DB { return db.Set("gorm:update_track_time", true) }},
+	{text: `Set("k",1)`, fam: "set", merge: "", f: func(db *gorm.DB) *gorm.DB { return db.Set("k", 1) }},
+	{text: `InstanceSet("k",2)`, fam: "set", merge: "", f: func(db *gorm.DB) *gorm.DB { return db.InstanceSet("k", 2) }},
+	// Preload with a function / inline conditions
+	{text: `Preload("Company",func)`, fam: "preload", merge: "", f: func(db *gorm.DB) *gorm.DB {
+		return db.Preload("Company", func(tx *gorm.DB) *gorm.DB { return tx.Where("name <> ?", "c2") })
+	}},
+	// more clause types through Clauses
+	{text: `Clauses(From{users JOIN companies f1})`, fam: "cfrom", merge: "", f: func(db *gorm.DB) *gorm.DB {
+		return db.Clauses(clause.From{Joins: xs(clause.Join{Type: clause.LeftJoin, Table: clause.Table{Name: "companies", Alias: "f1"},
+			ON: clause.Where{Exprs: xs[clause.Expression](clause.Expr{SQL: "f1.id = users.company_id"})}})})
+	}},
+	{text: `Clauses(Insert{OR IGNORE})`, fam: "cinsert", merge: "", f: func(db *gorm.DB) *gorm.DB { return db.Clauses(clause.Insert{Modifier: "OR IGNORE"}) }},
+	{text: `Clauses(Select{name,age})`, fam: "cselect", merge: "", f: func(db *gorm.DB) *gorm.DB {
+		return db.Clauses(clause.Select{Columns: xs(col("name"), col("age"))})
+	}},
+	{text: `Clauses(Limit{Offset:1})`, fam: "climit", merge: "", f: func(db *gorm.DB) *gorm.DB { return db.Clauses(clause.Limit{Offset: 1}) }},
+	{text: `Clauses(Returning{id},OrderBy{id},Expr)`, fam: "cmulti", merge: "RETURNING", f: func(db *gorm.DB) *gorm.DB {
+		return db.Clauses(clause.Returning{Columns: xs(col("id"))}, clause.OrderBy{Columns: xs(clause.OrderByColumn{Column: col("id")})}, clause.Expr{SQL: "age <> ?", Vars: xs[interface{}](99)})
+	}},
+	{text: `Distinct("name",[age])`, fam: "distinct", merge: "", f: func(db *gorm.DB) *gorm.DB { return db.Distinct("name", xs("age")) }},
+	{text: `Table("users u")`, fam: "table", merge: "", f: func(db *gorm.DB) *gorm.DB { return db.Table("users u") }},
+	{text: `Table("main.users")`, fam: "table", merge: "", f: func(db *gorm.DB) *gorm.DB { return db.Table("main.users") }},
+	{text: `Table("")`, fam: "table", merge: "", f: func(db *gorm.DB) *gorm.DB { return db.Table("") }},
+	{text: `Model(&[]User{{ID:1},{ID:3}})`, fam: "model", merge: "", f: func(db *gorm.DB) *gorm.DB { return db.Model(&[]User{{ID: 1}, {ID: 3}}) }},
+	{text: `Limit(0)`, fam: "limit", merge: "", f: func(db *gorm.DB) *gorm.DB { return db.Limit(0) }},
+	{text: `Offset(0)`, fam: "offset", merge: "", f: func(db *gorm.DB) *gorm.DB { return db.Offset(0) }},
+	// remaining type-switch arms of Where / Select / Order / Clauses / Table and bound value forms
+	{text: `Where("2")`, fam: "where", merge: "WHERE", f: func(db *gorm.DB) *gorm.DB { return db.Where("2") }},
+	{text: `Where(map[string]string{name:u2})`, fam: "where", merge: "WHERE", f: func(db *gorm.DB) *gorm.DB { return db.Where(map[string]string{"name": "u2"}) }},
+	{text: `Where(map[interface{}]interface{}{age:20})`, fam: "where", merge: "WHERE", f: func(db *gorm.DB) *gorm.DB {
+		return db.Where(map[interface{}]interface{}{"age": 20})
+	}},
+	{text: `Where([]User{{ID:1},{ID:2}})`, fam: "where", merge: "WHERE", f: func(db *gorm.DB) *gorm.DB { return db.Where(xs(User{ID: 1}, User{ID: 2})) }},
+	{text: `Where("name = ?",[]byte(u1))`, fam: "where", merge: "WHERE", f: func(db *gorm.DB) *gorm.DB { return db.Where("name = ?", []byte("u1")) }},
+	{text: `Where("id IN ?",[]interface{}{1,2})`, fam: "where", merge: "WHERE", f: func(db *gorm.DB) *gorm.DB { return db.Where("id IN ?", xs[interface{}](1, 2)) }},
+	{text: `Where("name = ?",NullString{u3})`, fam: "where", merge: "WHERE", f: func(db *gorm.DB) *gorm.DB {
+		return db.Where("name = ?", sql.NullString{String: "u3", Valid: true})
+	}},
+	{text: `Where("? > ?",Column{age},25)`, fam: "where", merge: "WHERE", f: func(db *gorm.DB) *gorm.DB { return db.Where("? > ?", col("age"), 25) }},
+	{text: `Select("name",[age])`, fam: "select", merge: "", f: func(db *gorm.DB) *gorm.DB { return db.Select("name", xs("age")) }},
+	{text: `Select(123)`, fam: "select", merge: "", f: func(db *gorm.DB) *gorm.DB { return db.Select(123) }},
+	{text: `Order(123)`, fam: "order", merge: "ORDER", f: func(db *gorm.DB) *gorm.DB { return db.Order(123) }},
+	{text: `Clauses(StatementModifier)`, fam: "cmodifier", merge: "", f: func(db *gorm.DB) *gorm.DB { return db.Clauses(distinctModifier{}) }},
+	{text: `Clauses(Update{OR IGNORE})`, fam: "cinsert", merge: "", f: func(db *gorm.DB) *gorm.DB { return db.Clauses(clause.Update{Modifier: "OR IGNORE"}) }},
+	{text: `Clauses(Delete{Modifier})`, fam: "cinsert", merge: "", f: func(db *gorm.DB) *gorm.DB { return db.Clauses(clause.Delete{Modifier: "/* d */"}) }},
+	{text: `Table("users AS u WHERE ?",…)`, fam: "table", merge: "", f: func(db *gorm.DB) *gorm.DB { return db.Table("(SELECT * FROM users WHERE age > ?) AS users", 10) }},
+	{text: `Session{Initialized}`, fam: "session-init", merge: "", f: func(db *gorm.DB) *gorm.DB { return db.Session(&gorm.Session{Initialized: true}) }},
+	// Raw as a chain method: the statement carries SQL text + Vars
+	{text: `Raw("SELECT * FROM users WHERE age > ?",30)`, fam: "raw", merge: "", f: func(db *gorm.DB) *gorm.DB {
+		return db.Raw("SELECT * FROM users WHERE age > ?", 30)
+	}},
+	{text: `Raw("… name = @n OR id IN ?",…)`, fam: "raw", merge: "", f: func(db *gorm.DB) *gorm.DB {
+		return db.Raw("SELECT * FROM users WHERE name = @n", sql.Named("n", "u2"))
+	}},
 	// Table / Model
 	{text: `Table("users")`, fam: "table", merge: "", f: func(db *gorm.DB) *gorm.DB { return db.Table("users") }},
 	{text: `Table("users AS u")`, fam: "table", merge: "", f: func(db *gorm.DB) *gorm.DB { return db.Table("users AS u") }},
@@ -484,9 +635,10 @@ func init() {
 	for i, f := range fins {
 		if _, ok := finsByKind[f.kind]; !ok {
 			finKinds = append(finKinds, f.kind)
-			if !f.write {
-				readKinds = append(readKinds, f.kind)
-			}
+		}
+		if !f.write && !hasRead[f.kind] {
+			hasRead[f.kind] = true
+			readKinds = append(readKinds, f.kind)
 		}
 		finsByKind[f.kind] = append(finsByKind[f.kind], i)
 	}
@@ -501,76 +653,262 @@ type finDef struct {
 	needs bool // needs a Model/Table call on the chain (the destination names no table)
 	// f runs the finisher and returns the resulting *gorm.DB and the destination(s) to render
 	f func(db *gorm.DB) (*gorm.DB, interface{})
+	// finishers that take a reusable handle of the tree as argument (codes >= argBase, see argFins)
+	argf func(db, arg *gorm.DB) (*gorm.DB, interface{})
+	arg  int
+}
+
+// argFins: finisher code = argBase + 10*index + handle id.
+var argFins = []finDef{
+	{text: `Find(&[]User,h%d)`, kind: "arg-finisher", argf: func(db, arg *gorm.DB) (*gorm.DB, interface{}) { var d []User; return db.Find(&d, arg), &d }},
+	{text: `First(&User,h%d)`, kind: "arg-finisher", argf: func(db, arg *gorm.DB) (*gorm.DB, interface{}) { var d User; return db.First(&d, arg), &d }},
+	{text: `Delete(&User{},h%d)`, kind: "arg-finisher", write: true, argf: func(db, arg *gorm.DB) (*gorm.DB, interface{}) {
+		d := &User{}
+		return db.Delete(d, arg), d
+	}},
+	{text: `Model(&User{}).Update("age",h%d.Model(&User{}).Select("max(age)"))`, kind: "arg-finisher", write: true, argf: func(db, arg *gorm.DB) (*gorm.DB, interface{}) {
+		m := &User{}
+		return db.Model(m).Update("age", arg.Model(&User{}).Select("max(age)")), m
+	}},
+	{text: `Model(&User{}).Where("id IN (?)",h%d.Table("users").Select("id")).Count`, kind: "arg-finisher", argf: func(db, arg *gorm.DB) (*gorm.DB, interface{}) {
+		var n int64
+		return db.Model(&User{}).Where("id IN (?)", arg.Table("users").Select("id")).Count(&n), &n
+	}},
+}
+
+func finOf(code int) finDef {
+	if code < argBase {
+		return fins[code]
+	}
+	d := argFins[(code-argBase)/10]
+	d.arg = (code - argBase) % 10
+	d.text = strings.Replace(d.text, "h%d", fmt.Sprintf("h%d", d.arg), 1)
+	return d
+}
+
+// run calls the finisher; res resolves a handle argument in the current environment.
+func (fd finDef) run(db *gorm.DB, dry bool, res func(id int) pair) (*gorm.DB, interface{}) {
+	if fd.argf != nil {
+		a := res(fd.arg)
+		if dry {
+			return fd.argf(db, a.d)
+		}
+		return fd.argf(db, a.l)
+	}
+	return fd.f(db)
 }
 
 var fins = []finDef{
-	{`Find(&[]User)`, "find", false, false, func(db *gorm.DB) (*gorm.DB, interface{}) { var d []User; return db.Find(&d), &d }},
-	{`Find(&[]User,"age > ?",25)`, "find", false, false, func(db *gorm.DB) (*gorm.DB, interface{}) { var d []User; return db.Find(&d, "age > ?", 25), &d }},
-	{`Find(&[]User,[1 2 6])`, "find", false, false, func(db *gorm.DB) (*gorm.DB, interface{}) { var d []User; return db.Find(&d, xs(1, 2, 6)), &d }},
-	{`Find(&[]Company)`, "find", false, false, func(db *gorm.DB) (*gorm.DB, interface{}) { var d []Company; return db.Find(&d), &d }},
-	{`Find(&[]map)`, "find", false, true, func(db *gorm.DB) (*gorm.DB, interface{}) { var d []map[string]interface{}; return db.Find(&d), &d }},
-	{`Find(&[]nameAge)`, "find", false, true, func(db *gorm.DB) (*gorm.DB, interface{}) { var d []nameAge; return db.Find(&d), &d }},
-	{`First(&User)`, "first", false, false, func(db *gorm.DB) (*gorm.DB, interface{}) { var d User; return db.First(&d), &d }},
-	{`First(&User,2)`, "first", false, false, func(db *gorm.DB) (*gorm.DB, interface{}) { var d User; return db.First(&d, 2), &d }},
-	{`Take(&User)`, "first", false, false, func(db *gorm.DB) (*gorm.DB, interface{}) { var d User; return db.Take(&d), &d }},
-	{`Last(&User)`, "first", false, false, func(db *gorm.DB) (*gorm.DB, interface{}) { var d User; return db.Last(&d), &d }},
-	{`Last(&Company)`, "first", false, false, func(db *gorm.DB) (*gorm.DB, interface{}) { var d Company; return db.Last(&d), &d }},
-	{`Count`, "count", false, true, func(db *gorm.DB) (*gorm.DB, interface{}) { var n int64; return db.Count(&n), &n }},
-	{`Pluck("name")`, "pluck", false, true, func(db *gorm.DB) (*gorm.DB, interface{}) { var d []string; return db.Pluck("name", &d), &d }},
-	{`Pluck("id")`, "pluck", false, true, func(db *gorm.DB) (*gorm.DB, interface{}) { var d []int64; return db.Pluck("id", &d), &d }},
-	{`Pluck("age")`, "pluck", false, true, func(db *gorm.DB) (*gorm.DB, interface{}) { var d []int; return db.Pluck("age", &d), &d }},
-	{`Scan(&[]nameAge)`, "scan", false, true, func(db *gorm.DB) (*gorm.DB, interface{}) { var d []nameAge; return db.Scan(&d), &d }},
+	{text: `Find(&[]User)`, kind: "find", write: false, needs: false, f: func(db *gorm.DB) (*gorm.DB, interface{}) { var d []User; return db.Find(&d), &d }},
+	{text: `Find(&[]User,"age > ?",25)`, kind: "find", write: false, needs: false, f: func(db *gorm.DB) (*gorm.DB, interface{}) { var d []User; return db.Find(&d, "age > ?", 25), &d }},
+	{text: `Find(&[]User,[1 2 6])`, kind: "find", write: false, needs: false, f: func(db *gorm.DB) (*gorm.DB, interface{}) { var d []User; return db.Find(&d, xs(1, 2, 6)), &d }},
+	{text: `Find(&[]Company)`, kind: "find", write: false, needs: false, f: func(db *gorm.DB) (*gorm.DB, interface{}) { var d []Company; return db.Find(&d), &d }},
+	{text: `Find(&[]map)`, kind: "find", write: false, needs: true, f: func(db *gorm.DB) (*gorm.DB, interface{}) { var d []map[string]interface{}; return db.Find(&d), &d }},
+	{text: `Find(&[]nameAge)`, kind: "find", write: false, needs: true, f: func(db *gorm.DB) (*gorm.DB, interface{}) { var d []nameAge; return db.Find(&d), &d }},
+	{text: `First(&User)`, kind: "first", write: false, needs: false, f: func(db *gorm.DB) (*gorm.DB, interface{}) { var d User; return db.First(&d), &d }},
+	{text: `First(&User,2)`, kind: "first", write: false, needs: false, f: func(db *gorm.DB) (*gorm.DB, interface{}) { var d User; return db.First(&d, 2), &d }},
+	{text: `Take(&User)`, kind: "first", write: false, needs: false, f: func(db *gorm.DB) (*gorm.DB, interface{}) { var d User; return db.Take(&d), &d }},
+	{text: `Last(&User)`, kind: "first", write: false, needs: false, f: func(db *gorm.DB) (*gorm.DB, interface{}) { var d User; return db.Last(&d), &d }},
+	{text: `Last(&Company)`, kind: "first", write: false, needs: false, f: func(db *gorm.DB) (*gorm.DB, interface{}) { var d Company; return db.Last(&d), &d }},
+	{text: `Count`, kind: "count", write: false, needs: true, f: func(db *gorm.DB) (*gorm.DB, interface{}) { var n int64; return db.Count(&n), &n }},
+	{text: `Pluck("name")`, kind: "pluck", write: false, needs: true, f: func(db *gorm.DB) (*gorm.DB, interface{}) { var d []string; return db.Pluck("name", &d), &d }},
+	{text: `Pluck("id")`, kind: "pluck", write: false, needs: true, f: func(db *gorm.DB) (*gorm.DB, interface{}) { var d []int64; return db.Pluck("id", &d), &d }},
+	{text: `Pluck("age")`, kind: "pluck", write: false, needs: true, f: func(db *gorm.DB) (*gorm.DB, interface{}) { var d []int; return db.Pluck("age", &d), &d }},
+	{text: `Scan(&[]nameAge)`, kind: "scan", write: false, needs: true, f: func(db *gorm.DB) (*gorm.DB, interface{}) { var d []nameAge; return db.Scan(&d), &d }},
 	// writes
-	{`Updates(map{age:55})`, "update", true, true, func(db *gorm.DB) (*gorm.DB, interface{}) {
+	{text: `Updates(map{age:55})`, kind: "update", write: true, needs: true, f: func(db *gorm.DB) (*gorm.DB, interface{}) {
 		return db.Updates(map[string]interface{}{"age": 55}), nil
 	}},
-	{`Updates(map{active:false,name:"w"})`, "update", true, true, func(db *gorm.DB) (*gorm.DB, interface{}) {
+	{text: `Updates(map{active:false,name:"w"})`, kind: "update", write: true, needs: true, f: func(db *gorm.DB) (*gorm.DB, interface{}) {
 		return db.Updates(map[string]interface{}{"name": "w", "active": false}), nil
 	}},
-	{`Updates(User{Name:x,Age:9})`, "update", true, true, func(db *gorm.DB) (*gorm.DB, interface{}) { return db.Updates(User{Name: "x", Age: 9}), nil }},
-	{`Updates(&User{ID:3,Name:y})`, "update", true, false, func(db *gorm.DB) (*gorm.DB, interface{}) {
+	{text: `Updates(User{Name:x,Age:9})`, kind: "update", write: true, needs: true, f: func(db *gorm.DB) (*gorm.DB, interface{}) { return db.Updates(User{Name: "x", Age: 9}), nil }},
+	{text: `Updates(&User{ID:3,Name:y})`, kind: "update", write: true, needs: false, f: func(db *gorm.DB) (*gorm.DB, interface{}) {
 		d := &User{ID: 3, Name: "y"}
 		return db.Updates(d), d
 	}},
-	{`Update("name","z")`, "update", true, true, func(db *gorm.DB) (*gorm.DB, interface{}) { return db.Update("name", "z"), nil }},
-	{`UpdateColumn("age",Expr(age+?,1))`, "update", true, true, func(db *gorm.DB) (*gorm.DB, interface{}) {
+	{text: `Update("name","z")`, kind: "update", write: true, needs: true, f: func(db *gorm.DB) (*gorm.DB, interface{}) { return db.Update("name", "z"), nil }},
+	{text: `UpdateColumn("age",Expr(age+?,1))`, kind: "update", write: true, needs: true, f: func(db *gorm.DB) (*gorm.DB, interface{}) {
 		return db.UpdateColumn("age", gorm.Expr("age + ?", 1)), nil
 	}},
-	{`Delete(&User{})`, "delete", true, false, func(db *gorm.DB) (*gorm.DB, interface{}) { d := &User{}; return db.Delete(d), d }},
-	{`Delete(&User{},3)`, "delete", true, false, func(db *gorm.DB) (*gorm.DB, interface{}) { d := &User{}; return db.Delete(d, 3), d }},
-	{`Delete(&User{ID:2})`, "delete", true, false, func(db *gorm.DB) (*gorm.DB, interface{}) { d := &User{ID: 2}; return db.Delete(d), d }},
-	{`Delete(&[]User)`, "delete", true, false, func(db *gorm.DB) (*gorm.DB, interface{}) { var d []User; return db.Delete(&d), &d }},
-	{`Create(&User{n})`, "create", true, false, func(db *gorm.DB) (*gorm.DB, interface{}) {
+	{text: `Delete(&User{})`, kind: "delete", write: true, needs: false, f: func(db *gorm.DB) (*gorm.DB, interface{}) { d := &User{}; return db.Delete(d), d }},
+	{text: `Delete(&User{},3)`, kind: "delete", write: true, needs: false, f: func(db *gorm.DB) (*gorm.DB, interface{}) { d := &User{}; return db.Delete(d, 3), d }},
+	{text: `Delete(&User{ID:2})`, kind: "delete", write: true, needs: false, f: func(db *gorm.DB) (*gorm.DB, interface{}) { d := &User{ID: 2}; return db.Delete(d), d }},
+	{text: `Delete(&[]User)`, kind: "delete", write: true, needs: false, f: func(db *gorm.DB) (*gorm.DB, interface{}) { var d []User; return db.Delete(&d), &d }},
+	{text: `Create(&User{n})`, kind: "create", write: true, needs: false, f: func(db *gorm.DB) (*gorm.DB, interface{}) {
 		d := &User{Name: "n", Age: 7, CompanyID: 1}
 		return db.Create(d), d
 	}},
-	{`Create(&User{ID:1})`, "create", true, false, func(db *gorm.DB) (*gorm.DB, interface{}) {
+	{text: `Create(&User{ID:1})`, kind: "create", write: true, needs: false, f: func(db *gorm.DB) (*gorm.DB, interface{}) {
 		d := &User{ID: 1, Name: "dup", Age: 8, CompanyID: 2}
 		return db.Create(d), d
 	}},
-	{`Create(&[]User{a,b})`, "create", true, false, func(db *gorm.DB) (*gorm.DB, interface{}) {
+	{text: `Create(&[]User{a,b})`, kind: "create", write: true, needs: false, f: func(db *gorm.DB) (*gorm.DB, interface{}) {
 		d := xs(User{Name: "a", Age: 1, CompanyID: 1}, User{Name: "b", Age: 2, CompanyID: 2})
 		return db.Create(&d), &d
 	}},
-	{`Create(map{name:m})`, "create", true, true, func(db *gorm.DB) (*gorm.DB, interface{}) {
+	{text: `Create(map{name:m})`, kind: "create", write: true, needs: true, f: func(db *gorm.DB) (*gorm.DB, interface{}) {
 		return db.Create(map[string]interface{}{"name": "m", "age": 3}), nil
 	}},
-	{`Save(&User{ID:4})`, "save", true, false, func(db *gorm.DB) (*gorm.DB, interface{}) {
+	{text: `Save(&User{ID:4})`, kind: "save", write: true, needs: false, f: func(db *gorm.DB) (*gorm.DB, interface{}) {
 		d := &User{ID: 4, Name: "s", Age: 44, CompanyID: 1}
 		return db.Save(d), d
 	}},
-	{`Find(&[]Toy)`, "find", false, false, func(db *gorm.DB) (*gorm.DB, interface{}) { var d []Toy; return db.Find(&d), &d }},
-	{`First(&Toy)`, "first", false, false, func(db *gorm.DB) (*gorm.DB, interface{}) { var d Toy; return db.First(&d), &d }},
-	{`Model(&Toy{}).Pluck("Name")`, "pluck", false, false, func(db *gorm.DB) (*gorm.DB, interface{}) {
+	{text: `Find(&[]Toy)`, kind: "find", write: false, needs: false, f: func(db *gorm.DB) (*gorm.DB, interface{}) { var d []Toy; return db.Find(&d), &d }},
+	{text: `First(&Toy)`, kind: "first", write: false, needs: false, f: func(db *gorm.DB) (*gorm.DB, interface{}) { var d Toy; return db.First(&d), &d }},
+	{text: `Model(&Toy{}).Pluck("Name")`, kind: "pluck", write: false, needs: false, f: func(db *gorm.DB) (*gorm.DB, interface{}) {
 		var d []string
 		return db.Model(&Toy{}).Pluck("Name", &d), &d
 	}},
-	{`Table("toys").Find(&[]map)`, "find", false, false, func(db *gorm.DB) (*gorm.DB, interface{}) {
+	{text: `Table("toys").Find(&[]map)`, kind: "find", write: false, needs: false, f: func(db *gorm.DB) (*gorm.DB, interface{}) {
 		var d []map[string]interface{}
 		return db.Table("toys").Find(&d), &d
 	}},
+	// ---- further finishers / entry points -------------------------------------------------
+	{text: `Find(&User)`, kind: "find", write: false, needs: false, f: func(db *gorm.DB) (*gorm.DB, interface{}) { var d User; return db.Find(&d), &d }},
+	{text: `Find(&[]*User)`, kind: "find", write: false, needs: false, f: func(db *gorm.DB) (*gorm.DB, interface{}) { var d []*User; return db.Find(&d), &d }},
+	{text: `Find(&[3]User)`, kind: "find", write: false, needs: false, f: func(db *gorm.DB) (*gorm.DB, interface{}) { var d [3]User; return db.Find(&d), &d }},
+	{text: `First(&map)`, kind: "first", write: false, needs: true, f: func(db *gorm.DB) (*gorm.DB, interface{}) { d := map[string]interface{}{}; return db.First(&d), &d }},
+	{text: `Take(&User,"age > ?",35)`, kind: "first", write: false, needs: false, f: func(db *gorm.DB) (*gorm.DB, interface{}) { var d User; return db.Take(&d, "age > ?", 35), &d }},
+	{text: `Last(&User,map{active:true})`, kind: "first", write: false, needs: false, f: func(db *gorm.DB) (*gorm.DB, interface{}) {
+		var d User
+		return db.Last(&d, map[string]interface{}{"active": true}), &d
+	}},
+	{text: `Pluck("name",&[]*string)`, kind: "pluck", write: false, needs: true, f: func(db *gorm.DB) (*gorm.DB, interface{}) { var d []*string; return db.Pluck("name", &d), &d }},
+	{text: `Scan(&nameAge)`, kind: "scan", write: false, needs: true, f: func(db *gorm.DB) (*gorm.DB, interface{}) { var d nameAge; return db.Scan(&d), &d }},
+	{text: `Model(&User{}).Scan(&[]map)`, kind: "scan", write: false, needs: false, f: func(db *gorm.DB) (*gorm.DB, interface{}) {
+		var d []map[string]interface{}
+		return db.Model(&User{}).Scan(&d), &d
+	}},
+	{text: `Model(&User{}).Rows+ScanRows`, kind: "rows", write: false, needs: false, f: func(db *gorm.DB) (*gorm.DB, interface{}) {
+		var out []nameAge
+		tx := db.Model(&User{})
+		rows, err := tx.Rows()
+		if err != nil || rows == nil {
+			return fakeTx(db, err, 0), &out
+		}
+		defer rows.Close()
+		for rows.Next() {
+			var d nameAge
+			if err = tx.ScanRows(rows, &d); err != nil {
+				break
+			}
+			out = append(out, d)
+		}
+		return fakeTx(db, err, len(out)), &out
+	}},
+	{text: `Model(&User{}).Select("name","age").Row`, kind: "rows", write: false, needs: false, f: func(db *gorm.DB) (*gorm.DB, interface{}) {
+		var d nameAge
+		row := db.Model(&User{}).Select("name", "age").Row()
+		if row == nil {
+			return fakeTx(db, errors.New("nil row"), 0), &d
+		}
+		return fakeTx(db, row.Scan(&d.Name, &d.Age), 1), &d
+	}},
+	{text: `Raw("SELECT name, age FROM users WHERE age > ?",25).Scan(&[]nameAge)`, kind: "raw", write: false, needs: false, f: func(db *gorm.DB) (*gorm.DB, interface{}) {
+		var d []nameAge
+		return db.Raw("SELECT name, age FROM users WHERE age > ?", 25).Scan(&d), &d
+	}},
+	{text: `Raw("… @n",Named).Find(&[]User)`, kind: "raw", write: false, needs: false, f: func(db *gorm.DB) (*gorm.DB, interface{}) {
+		var d []User
+		return db.Raw("SELECT * FROM users WHERE name = @n", sql.Named("n", "u1")).Find(&d), &d
+	}},
+	{text: `Exec("UPDATE users SET age = age + ? WHERE id = ?",1,2)`, kind: "exec", write: true, needs: false, f: func(db *gorm.DB) (*gorm.DB, interface{}) {
+		return db.Exec("UPDATE users SET age = age + ? WHERE id = ?", 1, 2), nil
+	}},
+	{text: `ToSQL(Find(&[]User))`, kind: "tosql", write: false, needs: false, f: func(db *gorm.DB) (*gorm.DB, interface{}) {
+		var inner *gorm.DB
+		var d []User
+		s := db.ToSQL(func(tx *gorm.DB) *gorm.DB { inner = tx.Find(&d); return inner })
+		return inner, &s
+	}},
+	{text: `Transaction{Find(&[]User)}`, kind: "transaction", write: false, needs: false, f: func(db *gorm.DB) (*gorm.DB, interface{}) {
+		var inner *gorm.DB
+		var d []User
+		err := db.Transaction(func(tx *gorm.DB) error { inner = tx.Find(&d); return inner.Error })
+		if inner == nil {
+			return fakeTx(db, err, 0), &d
+		}
+		return inner, &d
+	}},
+	{text: `Transaction{Create(&User{t});rollback}`, kind: "transaction", write: true, needs: false, f: func(db *gorm.DB) (*gorm.DB, interface{}) {
+		var inner *gorm.DB
+		d := &User{Name: "t", Age: 5, CompanyID: 1}
+		err := db.Transaction(func(tx *gorm.DB) error { inner = tx.Create(d); return errors.New("roll back") })
+		if inner == nil {
+			return fakeTx(db, err, 0), d
+		}
+		return inner, d
+	}},
+	{text: `Connection{Find(&[]User)}`, kind: "transaction", write: false, needs: false, f: func(db *gorm.DB) (*gorm.DB, interface{}) {
+		var inner *gorm.DB
+		var d []User
+		err := db.Connection(func(tx *gorm.DB) error { inner = tx.Find(&d); return inner.Error })
+		if inner == nil {
+			return fakeTx(db, err, 0), &d
+		}
+		return inner, &d
+	}},
+	{text: `Model(&User{ID:1}).Association("Company").Find`, kind: "association", write: false, needs: false, f: func(db *gorm.DB) (*gorm.DB, interface{}) {
+		var c Company
+		a := db.Model(&User{ID: 1}).Association("Company")
+		if a.Error != nil {
+			return fakeTx(db, a.Error, 0), &c
+		}
+		return fakeTx(db, a.Find(&c), 1), &c
+	}},
+	{text: `Model(&User{ID:3}).Association("Company").Count`, kind: "association", write: false, needs: false, f: func(db *gorm.DB) (*gorm.DB, interface{}) {
+		a := db.Model(&User{ID: 3}).Association("Company")
+		if a.Error != nil {
+			return fakeTx(db, a.Error, 0), nil
+		}
+		n := a.Count()
+		return fakeTx(db, a.Error, int(n)), &n
+	}},
+	{text: `FirstOrInit(&User,User{Name:nobody})`, kind: "firstor", write: false, needs: false, f: func(db *gorm.DB) (*gorm.DB, interface{}) {
+		var d User
+		return db.FirstOrInit(&d, User{Name: "nobody"}), &d
+	}},
+	{text: `FirstOrInit(&User)`, kind: "firstor", write: false, needs: false, f: func(db *gorm.DB) (*gorm.DB, interface{}) { var d User; return db.FirstOrInit(&d), &d }},
+	{text: `FirstOrCreate(&User,User{Name:foc})`, kind: "firstor", write: true, needs: false, f: func(db *gorm.DB) (*gorm.DB, interface{}) {
+		var d User
+		return db.FirstOrCreate(&d, User{Name: "foc"}), &d
+	}},
+	{text: `FirstOrCreate(&User,map{name:u2})`, kind: "firstor", write: true, needs: false, f: func(db *gorm.DB) (*gorm.DB, interface{}) {
+		var d User
+		return db.FirstOrCreate(&d, map[string]interface{}{"name": "u2"}), &d
+	}},
+	{text: `CreateInBatches(&[]User{a,b,c},2)`, kind: "create", write: true, needs: false, f: func(db *gorm.DB) (*gorm.DB, interface{}) {
+		d := xs(User{Name: "a", Age: 1, CompanyID: 1}, User{Name: "b", Age: 2, CompanyID: 2}, User{Name: "c", Age: 3, CompanyID: 1})
+		return db.CreateInBatches(&d, 2), &d
+	}},
+	{text: `Model(&User{}).Create([]map{m1,m2})`, kind: "create", write: true, needs: false, f: func(db *gorm.DB) (*gorm.DB, interface{}) {
+		return db.Model(&User{}).Create(xs(map[string]interface{}{"name": "m1", "age": 3}, map[string]interface{}{"name": "m2", "age": 4})), nil
+	}},
+	{text: `Create(&Toy{x})`, kind: "create", write: true, needs: false, f: func(db *gorm.DB) (*gorm.DB, interface{}) { d := &Toy{Name: "x", OwnerID: 2}; return db.Create(d), d }},
+	{text: `UpdateColumns(map{age:31,name:"uc"})`, kind: "update", write: true, needs: true, f: func(db *gorm.DB) (*gorm.DB, interface{}) {
+		return db.UpdateColumns(map[string]interface{}{"age": 31, "name": "uc"}), nil
+	}},
+	{text: `Model(&User{ID:2}).UpdateColumns(User{Age:32})`, kind: "update", write: true, needs: false, f: func(db *gorm.DB) (*gorm.DB, interface{}) {
+		m := &User{ID: 2}
+		return db.Model(m).UpdateColumns(User{Age: 32}), m
+	}},
+	{text: `Model(&User{}).Update("age",Expr(age*?,2))`, kind: "update", write: true, needs: false, f: func(db *gorm.DB) (*gorm.DB, interface{}) {
+		m := &User{}
+		return db.Model(m).Update("age", gorm.Expr("age * ?", 2)), m
+	}},
+	{text: `Save(&[]User{{ID:1},{ID:9}})`, kind: "save", write: true, needs: false, f: func(db *gorm.DB) (*gorm.DB, interface{}) {
+		d := xs(User{ID: 1, Name: "s1", Age: 11, CompanyID: 1}, User{ID: 9, Name: "s9", Age: 19, CompanyID: 2})
+		return db.Save(&d), &d
+	}},
+	{text: `Save(&User{new})`, kind: "save", write: true, needs: false, f: func(db *gorm.DB) (*gorm.DB, interface{}) {
+		d := &User{Name: "sn", Age: 12, CompanyID: 2}
+		return db.Save(d), d
+	}},
+	{text: `Delete(&Toy{},"owner_id = ?",1)`, kind: "delete", write: true, needs: false, f: func(db *gorm.DB) (*gorm.DB, interface{}) { d := &Toy{}; return db.Delete(d, "owner_id = ?", 1), d }},
+	{text: `Delete(&User{},[1 2])`, kind: "delete", write: true, needs: false, f: func(db *gorm.DB) (*gorm.DB, interface{}) { d := &User{}; return db.Delete(d, xs(1, 2)), d }},
 	// FindInBatches: several queries from one chain; the callback records what each batch held
-	{`FindInBatches(&[]User,2)`, "batches", false, false, func(db *gorm.DB) (*gorm.DB, interface{}) {
+	{text: `FindInBatches(&[]User,2)`, kind: "batches", write: false, needs: false, f: func(db *gorm.DB) (*gorm.DB, interface{}) {
 		var d []User
 		var seen []string
 		tx := db.FindInBatches(&d, 2, func(_ *gorm.DB, batch int) error {
@@ -581,7 +919,7 @@ var fins = []finDef{
 		})
 		return tx, &seen
 	}},
-	{`FindInBatches(&[]User,4)`, "batches", false, false, func(db *gorm.DB) (*gorm.DB, interface{}) {
+	{text: `FindInBatches(&[]User,4)`, kind: "batches", write: false, needs: false, f: func(db *gorm.DB) (*gorm.DB, interface{}) {
 		var d []User
 		var seen []string
 		tx := db.FindInBatches(&d, 4, func(_ *gorm.DB, batch int) error {
@@ -592,7 +930,7 @@ var fins = []finDef{
 		})
 		return tx, &seen
 	}},
-	{`FindInBatches(&[]Toy,1)`, "batches", false, false, func(db *gorm.DB) (*gorm.DB, interface{}) {
+	{text: `FindInBatches(&[]Toy,1)`, kind: "batches", write: false, needs: false, f: func(db *gorm.DB) (*gorm.DB, interface{}) {
 		var d []Toy
 		var seen []string
 		tx := db.FindInBatches(&d, 1, func(_ *gorm.DB, batch int) error {
@@ -606,60 +944,60 @@ var fins = []finDef{
 	// "request" sessions: a ready-to-use session with its own cancellable context is taken
 	// (Initialized: true), used for one query, and its context is cancelled right afterwards;
 	// whatever it was taken from must keep working with its own context
-	{`Session{Initialized,Context:req}.Find(&[]User);cancel`, "request", false, false, func(db *gorm.DB) (*gorm.DB, interface{}) {
+	{text: `Session{Initialized,Context:req}.Find(&[]User);cancel`, kind: "request", write: false, needs: false, f: func(db *gorm.DB) (*gorm.DB, interface{}) {
 		ctx, cancel := context.WithCancel(context.Background())
 		defer cancel()
 		var d []User
 		return db.Session(&gorm.Session{Initialized: true, Context: ctx}).Find(&d), &d
 	}},
-	{`Session{Initialized,Context:req,SkipHooks}.First(&User);cancel`, "request", false, false, func(db *gorm.DB) (*gorm.DB, interface{}) {
+	{text: `Session{Initialized,Context:req,SkipHooks}.First(&User);cancel`, kind: "request", write: false, needs: false, f: func(db *gorm.DB) (*gorm.DB, interface{}) {
 		ctx, cancel := context.WithCancel(context.Background())
 		defer cancel()
 		var d User
 		return db.Session(&gorm.Session{Initialized: true, Context: ctx, SkipHooks: true}).First(&d), &d
 	}},
-	{`Session{Initialized,Context:req}.Model(&User{}).Count;cancel`, "request", false, false, func(db *gorm.DB) (*gorm.DB, interface{}) {
+	{text: `Session{Initialized,Context:req}.Model(&User{}).Count;cancel`, kind: "request", write: false, needs: false, f: func(db *gorm.DB) (*gorm.DB, interface{}) {
 		ctx, cancel := context.WithCancel(context.Background())
 		defer cancel()
 		var n int64
 		return db.Session(&gorm.Session{Initialized: true, Context: ctx}).Model(&User{}).Count(&n), &n
 	}},
-	{`Session{Initialized,Context:req,PrepareStmt}.Find(&[]Toy);cancel`, "request", false, false, func(db *gorm.DB) (*gorm.DB, interface{}) {
+	{text: `Session{Initialized,Context:req,PrepareStmt}.Find(&[]Toy);cancel`, kind: "request", write: false, needs: false, f: func(db *gorm.DB) (*gorm.DB, interface{}) {
 		ctx, cancel := context.WithCancel(context.Background())
 		defer cancel()
 		var d []Toy
 		return db.Session(&gorm.Session{Initialized: true, Context: ctx, PrepareStmt: true}).Find(&d), &d
 	}},
 	// the same with the table named by the finisher's own Model/Table call (a fresh value per execution)
-	{`Model(&User{}).Count`, "count", false, false, func(db *gorm.DB) (*gorm.DB, interface{}) { var n int64; return db.Model(&User{}).Count(&n), &n }},
-	{`Model(&User{}).Pluck("name")`, "pluck", false, false, func(db *gorm.DB) (*gorm.DB, interface{}) {
+	{text: `Model(&User{}).Count`, kind: "count", write: false, needs: false, f: func(db *gorm.DB) (*gorm.DB, interface{}) { var n int64; return db.Model(&User{}).Count(&n), &n }},
+	{text: `Model(&User{}).Pluck("name")`, kind: "pluck", write: false, needs: false, f: func(db *gorm.DB) (*gorm.DB, interface{}) {
 		var d []string
 		return db.Model(&User{}).Pluck("name", &d), &d
 	}},
-	{`Table("users").Pluck("id")`, "pluck", false, false, func(db *gorm.DB) (*gorm.DB, interface{}) {
+	{text: `Table("users").Pluck("id")`, kind: "pluck", write: false, needs: false, f: func(db *gorm.DB) (*gorm.DB, interface{}) {
 		var d []int64
 		return db.Table("users").Pluck("id", &d), &d
 	}},
-	{`Model(&User{}).Scan(&[]nameAge)`, "scan", false, false, func(db *gorm.DB) (*gorm.DB, interface{}) {
+	{text: `Model(&User{}).Scan(&[]nameAge)`, kind: "scan", write: false, needs: false, f: func(db *gorm.DB) (*gorm.DB, interface{}) {
 		var d []nameAge
 		return db.Model(&User{}).Scan(&d), &d
 	}},
-	{`Model(&User{}).Find(&[]map)`, "find", false, false, func(db *gorm.DB) (*gorm.DB, interface{}) {
+	{text: `Model(&User{}).Find(&[]map)`, kind: "find", write: false, needs: false, f: func(db *gorm.DB) (*gorm.DB, interface{}) {
 		var d []map[string]interface{}
 		return db.Model(&User{}).Find(&d), &d
 	}},
-	{`Model(&User{}).Updates(map{age:55})`, "update", true, false, func(db *gorm.DB) (*gorm.DB, interface{}) {
+	{text: `Model(&User{}).Updates(map{age:55})`, kind: "update", write: true, needs: false, f: func(db *gorm.DB) (*gorm.DB, interface{}) {
 		m := &User{}
 		return db.Model(m).Updates(map[string]interface{}{"age": 55}), m
 	}},
-	{`Model(&User{ID:5}).Update("name","z")`, "update", true, false, func(db *gorm.DB) (*gorm.DB, interface{}) {
+	{text: `Model(&User{ID:5}).Update("name","z")`, kind: "update", write: true, needs: false, f: func(db *gorm.DB) (*gorm.DB, interface{}) {
 		m := &User{ID: 5}
 		return db.Model(m).Update("name", "z"), m
 	}},
-	{`Table("users").UpdateColumn("age",Expr(age+?,1))`, "update", true, false, func(db *gorm.DB) (*gorm.DB, interface{}) {
+	{text: `Table("users").UpdateColumn("age",Expr(age+?,1))`, kind: "update", write: true, needs: false, f: func(db *gorm.DB) (*gorm.DB, interface{}) {
 		return db.Table("users").UpdateColumn("age", gorm.Expr("age + ?", 1)), nil
 	}},
-	{`Model(&User{}).Create(map{name:m})`, "create", true, false, func(db *gorm.DB) (*gorm.DB, interface{}) {
+	{text: `Model(&User{}).Create(map{name:m})`, kind: "create", write: true, needs: false, f: func(db *gorm.DB) (*gorm.DB, interface{}) {
 		return db.Model(&User{}).Create(map[string]interface{}{"name": "m", "age": 3}), nil
 	}},
 }
@@ -667,6 +1005,7 @@ var fins = []finDef{
 var (
 	finIndex   = map[string]int{}
 	finsByKind = map[string][]int{}
+	hasRead    = map[string]bool{}
 	finKinds   []string // in catalogue order
 	readKinds  []string
 )
@@ -711,16 +1050,47 @@ var hows = []howDef{
 	{"Session{NewDB}", false, func(e *env, p pair, n int) pair {
 		return both(p, func(db *gorm.DB) *gorm.DB { return db.Session(&gorm.Session{NewDB: true}) })
 	}},
+	{"Session{DryRun}", false, func(e *env, p pair, n int) pair {
+		return both(p, func(db *gorm.DB) *gorm.DB { return db.Session(&gorm.Session{DryRun: true}) })
+	}},
+	{"Session{PrepareStmt}", false, func(e *env, p pair, n int) pair {
+		return both(p, func(db *gorm.DB) *gorm.DB { return db.Session(&gorm.Session{PrepareStmt: true}) })
+	}},
+	{"Session{SkipDefaultTransaction}", false, func(e *env, p pair, n int) pair {
+		return both(p, func(db *gorm.DB) *gorm.DB { return db.Session(&gorm.Session{SkipDefaultTransaction: true}) })
+	}},
+	{"Session{DisableNestedTransaction}", false, func(e *env, p pair, n int) pair {
+		return both(p, func(db *gorm.DB) *gorm.DB { return db.Session(&gorm.Session{DisableNestedTransaction: true}) })
+	}},
+	{"Session{FullSaveAssociations}", false, func(e *env, p pair, n int) pair {
+		return both(p, func(db *gorm.DB) *gorm.DB { return db.Session(&gorm.Session{FullSaveAssociations: true}) })
+	}},
+	{"Session{PropagateUnscoped}", false, func(e *env, p pair, n int) pair {
+		return both(p, func(db *gorm.DB) *gorm.DB { return db.Session(&gorm.Session{PropagateUnscoped: true}) })
+	}},
+	{"Session{NowFunc}", false, func(e *env, p pair, n int) pair {
+		return both(p, func(db *gorm.DB) *gorm.DB {
+			return db.Session(&gorm.Session{NowFunc: func() time.Time { return testdb.FixedNow.Add(time.Hour) }})
+		})
+	}},
+	{"Session{CreateBatchSize:2}", false, func(e *env, p pair, n int) pair {
+		return both(p, func(db *gorm.DB) *gorm.DB { return db.Session(&gorm.Session{CreateBatchSize: 2}) })
+	}},
+	{"Session{Context,SkipHooks,Logger}", false, func(e *env, p pair, n int) pair {
+		return both(p, func(db *gorm.DB) *gorm.DB {
+			return db.Session(&gorm.Session{Context: context.WithValue(context.Background(), ctxKey{}, -n), SkipHooks: true, Logger: silent})
+		})
+	}},
 	{"Begin", true, func(e *env, p pair, n int) pair {
 		// the dry-run handle begins a "transaction" on its connection-less pool
 		// (dryPool), so that both twins go through the same gorm code
 		tx := p.l.Begin()
-		if tx.Error != nil {
+		if errors.Is(tx.Error, gorm.ErrInvalidTransaction) { // any other error was carried by the chain value (a failed finisher it continues)
 			panic("harness: Begin: " + tx.Error.Error())
 		}
 		e.txs = append(e.txs, tx)
 		dtx := p.d.Begin()
-		if dtx.Error != nil {
+		if errors.Is(dtx.Error, gorm.ErrInvalidTransaction) {
 			panic("harness: dry Begin: " + dtx.Error.Error())
 		}
 		return pair{d: dtx, l: tx}
@@ -782,10 +1152,12 @@ type Action struct {
 	Fin   int    `json:"fin,omitempty"`
 	New   int    `json:"new,omitempty"`
 	Ref   int    `json:"ref,omitempty"`
+	Cont  bool   `json:"cont,omitempty"` // finish: the chain stays live and continues on the value the finisher returned
 }
 
 type History struct {
 	Mode    string   `json:"mode"` // "tx": Begin allowed, twin runs read finishers only; "rw": no Begin, twin runs writes too
+	Cfg     int      `json:"cfg"`  // index into cfgs
 	Actions []Action `json:"actions"`
 }
 
@@ -836,9 +1208,12 @@ func (a Action) String() string {
 	case "extend":
 		return fmt.Sprintf("c%d.%s", a.C, callsText(a.Calls))
 	case "finish":
-		return fmt.Sprintf("c%d.%s", a.C, fins[a.Fin].text)
+		if a.Cont {
+			return fmt.Sprintf("c%d=c%d.%s", a.C, a.C, finOf(a.Fin).text)
+		}
+		return fmt.Sprintf("c%d.%s", a.C, finOf(a.Fin).text)
 	case "direct":
-		return fmt.Sprintf("h%d.%s", a.H, fins[a.Fin].text)
+		return fmt.Sprintf("h%d.%s", a.H, finOf(a.Fin).text)
 	case "abandon":
 		return fmt.Sprintf("drop c%d", a.C)
 	case "repeat":
@@ -852,7 +1227,7 @@ func (h History) String() string {
 	for i, a := range h.Actions {
 		parts[i] = fmt.Sprintf("#%d %s", i, a)
 	}
-	return "[" + h.Mode + "] " + strings.Join(parts, "; ")
+	return "[" + h.Mode + "; " + cfgs[h.Cfg].text + "] " + strings.Join(parts, "; ")
 }
 
 // ---- static structure of a history (no gorm involved) ------------------------------------------
@@ -934,6 +1309,7 @@ type cnode struct {
 type path struct {
 	from  *hnode
 	nodes map[int]*hnode // the handles of the history (handle arguments are looked up here)
+	cfg   int            // index into cfgs
 	calls []int
 	fin   int
 }
@@ -943,7 +1319,11 @@ func (p path) String() string {
 	if len(p.calls) > 0 {
 		s += "." + callsTextFull(p.calls, p.nodes)
 	}
-	return s + " => " + fins[p.fin].text // the separator keeps "chain call Model + finisher Updates" apart from "finisher Model.Updates"
+	ft := finOf(p.fin)
+	if ft.argf != nil {
+		ft.text = strings.Replace(ft.text, fmt.Sprintf("h%d", ft.arg), "<"+handleText(p.nodes[ft.arg], p.nodes)+">", 1)
+	}
+	return s + " => " + ft.text // the separator keeps "chain call Model + finisher Updates" apart from "finisher Model.Updates"
 }
 
 // ---- outcome of one finisher ----------------------------------------------------------------------
@@ -1102,6 +1482,8 @@ func renderVars(vs []interface{}) string {
 	return "[" + strings.Join(parts, " | ") + "]"
 }
 
+var spRe = regexp.MustCompile(`SAVEPOINT sp[0-9a-fx]+`)
+
 var ptrRe = regexp.MustCompile(`0x[0-9a-f]{6,}`)
 
 // errText renders an error; addresses of caller values that gorm prints with
@@ -1113,22 +1495,32 @@ func errText(err error) string {
 	return ptrRe.ReplaceAllString(err.Error(), "0xPTR")
 }
 
+// fakeTx wraps the result of an entry point that returns no *gorm.DB (Rows, Row,
+// Association) so that it can be reported like the others: error and row count,
+// no statement.
+func fakeTx(db *gorm.DB, err error, n int) *gorm.DB {
+	tx := &gorm.DB{Config: db.Config, Error: err, RowsAffected: int64(n)}
+	tx.Statement = &gorm.Statement{DB: tx}
+	return tx
+}
+
 // safely runs a finisher; a panic inside gorm is an outcome like any other (it
 // must be the same in the history and alone), reported as error text.
-func safely(fd finDef, db *gorm.DB) (tx *gorm.DB, dest interface{}, panicked string) {
+func safely(fd finDef, db *gorm.DB, dry bool, res func(id int) pair) (tx *gorm.DB, dest interface{}, panicked string) {
 	defer func() {
 		if r := recover(); r != nil {
 			panicked = ptrRe.ReplaceAllString(fmt.Sprint("panic: ", r), "0xPTR")
 		}
 	}()
-	tx, dest = fd.f(db)
+	tx, dest = fd.run(db, dry, res)
 	return
 }
 
-func runFin(e *env, p pair, fin int, mode string) outcome {
-	fd := fins[fin]
+func runFin(e *env, p pair, fin int, mode string, res func(id int) pair) outcome {
+	fd := finOf(fin)
 	var o outcome
-	tx, _, pan := safely(fd, p.d)
+	e.lastTx = pair{}
+	tx, _, pan := safely(fd, p.d, true, res)
 	if pan != "" {
 		o.DryErr = pan
 	} else {
@@ -1153,13 +1545,14 @@ func runFin(e *env, p pair, fin int, mode string) outcome {
 			}
 		}
 		e.kept = append(e.kept, k)
+		e.lastTx.d = tx
 	}
 	if fd.write && mode != "rw" {
 		o.LiteStmts = "(not run)"
 		return o
 	}
 	e.lite.Rec.Reset()
-	tx, dest, pan := safely(fd, p.l)
+	tx, dest, pan := safely(fd, p.l, false, res)
 	if pan != "" {
 		// the twin may hold an unfinished default transaction now: the caller stops using this environment
 		e.poisoned = true
@@ -1171,7 +1564,7 @@ func runFin(e *env, p pair, fin int, mode string) outcome {
 		if ev.Stmt {
 			sb.WriteString("(prepared) ") // went through a prepared driver statement
 		}
-		sb.WriteString(ev.Text)
+		sb.WriteString(spRe.ReplaceAllString(ev.Text, "SAVEPOINT spN")) // nested Transaction blocks use a generated save point name
 		sb.WriteString(" [")
 		for i, a := range ev.Args {
 			if i > 0 {
@@ -1181,6 +1574,7 @@ func runFin(e *env, p pair, fin int, mode string) outcome {
 		}
 		sb.WriteString("]; ")
 	}
+	e.lastTx.l = tx
 	o.LiteStmts = sb.String()
 	o.LiteRes = fmt.Sprintf("rows=%d dest=%s", tx.RowsAffected, render(dest))
 	o.LiteErr = errText(tx.Error)
@@ -1217,7 +1611,7 @@ func depth(n *hnode) int {
 // only the handles on the path (and the handles its calls take as arguments)
 // are built, nothing else is ever derived from them.
 func runAlone(p path, mode string) outcome {
-	e := newEnv()
+	e := newEnv(p.cfg)
 	defer e.close()
 	built := map[int]pair{0: e.root}
 	var build func(n *hnode) pair
@@ -1232,7 +1626,7 @@ func runAlone(p path, mode string) outcome {
 		return b
 	}
 	cur := applyCalls(build(p.from), p.calls, res)
-	return runFin(e, cur, p.fin, mode)
+	return runFin(e, cur, p.fin, mode, res)
 }
 
 // ---- running a history ------------------------------------------------------------------------------
@@ -1246,7 +1640,7 @@ type finished struct {
 // run executes the history in one shared environment and compares every
 // finisher with its path replayed alone. It returns "" or the violation.
 func run(h History) string {
-	e := newEnv()
+	e := newEnv(h.Cfg)
 	defer e.close()
 	root := &hnode{id: 0}
 	handles := map[int]*hnode{0: root}
@@ -1259,7 +1653,7 @@ func run(h History) string {
 
 	check := func(i int, from *hnode, cs []int, fin int, got outcome) string {
 		got.count()
-		p := path{from: from, nodes: handles, calls: cs, fin: fin}
+		p := path{from: from, nodes: handles, cfg: h.Cfg, calls: cs, fin: fin}
 		key := p.String()
 		want, ok := alone[key]
 		if !ok {
@@ -1323,15 +1717,24 @@ func run(h History) string {
 			cpair[a.C] = applyCalls(cpair[a.C], a.Calls, res)
 		case "finish":
 			c := chains[a.C]
-			got := runFin(e, cpair[a.C], a.Fin, h.Mode)
-			delete(chains, a.C)
-			delete(cpair, a.C)
-			done[i] = finished{from: c.from, calls: c.calls, fin: a.Fin}
-			if v := check(i, c.from, c.calls, a.Fin, got); v != "" {
+			got := runFin(e, cpair[a.C], a.Fin, h.Mode, res)
+			done[i] = finished{from: c.from, calls: append([]int(nil), c.calls...), fin: a.Fin}
+			if v := check(i, c.from, done[i].calls, a.Fin, got); v != "" {
 				return v
 			}
+			if a.Cont && e.lastTx.d != nil && e.lastTx.l != nil {
+				// the chain goes on from what the finisher returned; its statement is not "finished"
+				cpair[a.C] = e.lastTx
+				c.calls = append(append([]int(nil), c.calls...), finCallBase+a.Fin)
+				if n := len(e.kept); n > 0 && e.kept[n-1].stmt == e.lastTx.d.Statement {
+					e.kept = e.kept[:n-1]
+				}
+			} else {
+				delete(chains, a.C)
+				delete(cpair, a.C)
+			}
 		case "direct":
-			got := runFin(e, hpair[a.H], a.Fin, h.Mode)
+			got := runFin(e, hpair[a.H], a.Fin, h.Mode, res)
 			done[i] = finished{from: handles[a.H], fin: a.Fin}
 			if v := check(i, handles[a.H], nil, a.Fin, got); v != "" {
 				return v
@@ -1341,7 +1744,7 @@ func run(h History) string {
 			delete(cpair, a.C)
 		case "repeat":
 			f := done[a.Ref]
-			got := runFin(e, applyCalls(hpair[f.from.id], f.calls, res), f.fin, h.Mode)
+			got := runFin(e, applyCalls(hpair[f.from.id], f.calls, res), f.fin, h.Mode, res)
 			if v := check(i, f.from, f.calls, f.fin, got); v != "" {
 				return v
 			}
@@ -1370,7 +1773,7 @@ func mergeFams(cs []int) map[string]bool {
 
 // analyse walks the history statically.
 func analyse(h History) (nontrivial bool, classes []string) {
-	cl := map[string]bool{"mode:" + h.Mode: true}
+	cl := map[string]bool{"mode:" + h.Mode: true, "config:" + cfgs[h.Cfg].text: true}
 	root := &hnode{id: 0}
 	handles := map[int]*hnode{0: root}
 	type chainInfo struct {
@@ -1424,15 +1827,23 @@ func analyse(h History) (nontrivial bool, classes []string) {
 		case "finish":
 			c := live[a.C]
 			c.last = i
-			doneCalls[i] = c
-			delete(live, a.C)
-			cl["fin:"+fins[a.Fin].kind] = true
+			cl["fin:"+finOf(a.Fin).kind] = true
 			burst(c.calls)
+			if a.Cont {
+				cl["continue-after-finisher"] = true
+				snap := *c
+				snap.calls = append([]int(nil), c.calls...)
+				doneCalls[i] = &snap
+				c.calls = append(append([]int(nil), c.calls...), finCallBase+a.Fin)
+			} else {
+				doneCalls[i] = c
+				delete(live, a.C)
+			}
 		case "direct":
 			c := &chainInfo{from: handles[a.H], start: i, last: i}
 			all = append(all, c)
 			doneCalls[i] = c
-			cl["fin:"+fins[a.Fin].kind] = true
+			cl["fin:"+finOf(a.Fin).kind] = true
 		case "abandon":
 			delete(live, a.C)
 		case "repeat":
@@ -1622,6 +2033,10 @@ func genHistory(rt *rapid.T) History {
 	const maxHandles, maxLive = 4, 6
 	skipLeadingOr := harness.OpenClass("C06", "leading-or-handle") && harness.EnvInt("VERIF_C06_NOSKIP", 0) == 0
 	h := History{Mode: rapid.SampledFrom([]string{"tx", "rw"}).Draw(rt, "mode")}
+	// half of the histories run under the default configuration, the others under a drawn variant
+	if rapid.IntRange(0, 1).Draw(rt, "variantCfg") == 1 {
+		h.Cfg = rapid.IntRange(1, len(cfgs)-1).Draw(rt, "cfg")
+	}
 	n := rapid.IntRange(4, maxActions).Draw(rt, "actions")
 
 	type gh struct {
@@ -1724,9 +2139,27 @@ func genHistory(rt *rapid.T) History {
 		return x.calls
 	}
 	drawFin := func(handleCalls, chainCalls []int) int {
-		if holdsModel(handleCalls) && !holdsModel(chainCalls) {
+		shared := holdsModel(handleCalls) && !holdsModel(chainCalls)
+		// now and then a finisher that takes another reusable handle as argument
+		if ids := argIDs(); len(ids) > 0 && rapid.IntRange(0, 9).Draw(rt, "argFin") == 0 {
+			var ks []int
+			for i, f := range argFins {
+				if !(shared && f.write) {
+					ks = append(ks, i)
+				}
+			}
+			k := rapid.SampledFrom(ks).Draw(rt, "argFinKind")
+			return argBase + 10*k + rapid.SampledFrom(ids).Draw(rt, "argFinHandle").id
+		}
+		if shared {
 			k := rapid.SampledFrom(readKinds).Draw(rt, "readKind")
-			return rapid.SampledFrom(finsByKind[k]).Draw(rt, "fin")
+			var cands []int
+			for _, f := range finsByKind[k] {
+				if !fins[f].write {
+					cands = append(cands, f)
+				}
+			}
+			return rapid.SampledFrom(cands).Draw(rt, "fin")
 		}
 		k := rapid.SampledFrom(finKinds).Draw(rt, "finKind")
 		cands := finsByKind[k]
@@ -1825,9 +2258,16 @@ func genHistory(rt *rapid.T) History {
 			c.calls = append(append([]int(nil), c.calls...), cs...)
 		case "finish":
 			ci := rapid.IntRange(0, len(live)-1).Draw(rt, "chain")
-			h.Actions = append(h.Actions, Action{Kind: k, C: live[ci].id, Fin: drawFin(chainBase(handleByID(live[ci].from), live[ci].calls), live[ci].calls)})
+			fin := drawFin(chainBase(handleByID(live[ci].from), live[ci].calls), live[ci].calls)
+			// one finish in four of a suitable kind is not the end: the chain continues on the returned value
+			cont := fin < argBase && midKinds[fins[fin].kind] && !fins[fin].write && rapid.IntRange(0, 3).Draw(rt, "continue") == 0
+			h.Actions = append(h.Actions, Action{Kind: k, C: live[ci].id, Fin: fin, Cont: cont})
 			finishedAt = append(finishedAt, len(h.Actions)-1)
-			live = append(live[:ci:ci], live[ci+1:]...)
+			if cont {
+				live[ci].calls = append(append([]int(nil), live[ci].calls...), finCallBase+fin)
+			} else {
+				live = append(live[:ci:ci], live[ci+1:]...)
+			}
 		case "direct":
 			from := pickHandle("from")
 			h.Actions = append(h.Actions, Action{Kind: k, H: from.id, Fin: drawFin(from.calls, nil)})
